@@ -520,6 +520,40 @@ pub fn run(ctx: &Ctx, rep: &mut Report) {
         check_spec,
     );
 
+    // (c2) one option number holding hundreds of values
+    let mut rep_scripts = Vec::new();
+    for num in [0u16, 11, 258, 65535] {
+        for count in [254usize, 255, 256, 257, 300, 1000, 5000] {
+            for len in [0u32, 1, 13] {
+                if num != 11 && (count > 300 || len == 13) && !(num == 65535 && count == 1000 && len == 0) {
+                    continue;
+                }
+                let mut ops = vec![Op::Token(vec![7; (count % 9).min(8)]), Op::CodeByte(0x02), Op::Mid(count as u16)];
+                for i in 0..count {
+                    ops.push(Op::Add(num, Blob::Pat { len, seed: i as u8 }));
+                }
+                if num == 11 {
+                    // a neighbour above, so that the delta after the long run is checked
+                    ops.push(Op::Add(12, Blob::Lit(vec![40])));
+                    ops.push(Op::Payload(Blob::Lit(vec![1, 2, 3])));
+                }
+                rep_scripts.push(Script { ops });
+            }
+        }
+    }
+    run_list(
+        ctx,
+        rep,
+        "repeated-option-values",
+        "one option number (0, 11, 258, 65535) given 254..5000 values of 0, 1 or 13 bytes through add_option, optionally followed by a higher number and a payload; same oracle as the build scripts",
+        true,
+        rep_scripts,
+        |ctx, s: &Script, acc| {
+            acc.class("hundreds-of-values-for-one-number");
+            check_script(ctx, s, acc)
+        },
+    );
+
     // (d) random build scripts with shrinking.
     let n = ctx.cases(120_000, 1_500_000);
     run_prop(
